@@ -55,7 +55,7 @@ def _explore_case(args):
     eng = E.Engine(feas_timeout_ms=opts.get('feas_timeout_ms', 3000),
                    assert_timeout_ms=opts.get('assert_timeout_ms', 60000),
                    max_paths=opts.get('max_paths', 200000),
-                   fork_outputs=opts.get('fork_outputs', False),
+                   fork_outputs=case.get('fork_outputs', opts.get('fork_outputs', False)),
                    output_branches=case.get('output_branches', opts.get('output_branches', 'both')),
                    input_zero_tests=case.get('input_zero_tests', opts.get('input_zero_tests', 'fork')))
     prof = _Profiler()
